@@ -272,3 +272,23 @@ def exits_tc(rng):
     opts = dict(opts)
     opts["time_bias"] = 0.35
     return spec, ext, opts
+
+
+def countflow(rng):
+    """deterministic workflow for snapshot/resume: start sends n T1; `b_work` (k workers) optionally fails until retry f
+    (zero-delay retries), waits at a gate, increments the state-store counter `n`, returns T2; `c_gather` collects n T2
+    and returns StopEvent(result="done").  Bodies are suspended only at the gate, before any side effect."""
+    n = rng.choice([1, 2, 3, 4])
+    k = rng.choice([1, 2, 3])
+    f = rng.choice([0, 0, 1, 2])
+    pol = rp.retry_policy(wait=rp.wait_fixed(0), stop=rp.stop_after_attempt(4)) if f else None
+    work = ([("fail_until", f, "value")] if f else []) + [("gate", "w"), ("incr", "n"), ("return", T2)]
+    spec = dict(steps={
+        "a_start": dict(accepts=[StartEvent], returns=[T1, type(None)], num_workers=1,
+                        script=[("send", T1, n, None), ("return", None)]),
+        "b_work": dict(accepts=[T1], returns=[T2], num_workers=k, policy=pol, script=work),
+        "c_gather": dict(accepts=[T2], returns=[StopEvent, type(None)], num_workers=1,
+                         script=[("collect", [T2] * n, None), ("return_const", "done")]),
+    })
+    spec["count_n"], spec["fail_until"] = n, f
+    return spec, [], dict(policy=rng.choice(["random", "lifo", "fifo"]))
